@@ -89,7 +89,11 @@ func (ci *ChunkInfo) updateNeighborChunkInfo(rootCid, cid boson.Address, overlay
 	}
 	bv, ok := ci.ct.presence[rc][over]
 
-	v := ci.getCidSort(rootCid, cid)
+	v, isData := ci.getCidSort(rootCid, cid)
+	if !isData {
+		// not a data chunk of this file (e.g. an intermediate chunk): nothing to mark
+		return nil
+	}
 	bv.Set(v)
 	bit := BitVector{B: bv.Bytes(), Len: bv.Len()}
 	if overlay.Equal(ci.addr) {
